@@ -4,7 +4,8 @@ import JjModel.Drv.Util
     `C38 ann <graph> <S> <start> <texts> <diffs>`
     texts = line-token lists per commit (`;`-separated, `-` = no file / empty),
     diffs = `;`-separated entries `child,ancestor,cs1,ps1,cnt1,cs2,ps2,cnt2,…` (`-` = none).
-    answer: `sound=<0|1> n=<lines> <origins>`, origins `o<commit>.<line>` (Ok) / `e<commit>.<line>` (Err). -/
+    answer: `sound=<0|1> n=<lines> <origins>` (`err:malformed-graph` / `err:start-not-searched` when a
+    hypothesis of the theorems about the walk fails; the harness never produces such a request), origins `o<commit>.<line>` (Ok) / `e<commit>.<line>` (Err). -/
 namespace JjModel.Drv.C38
 open JjModel.Dag JjModel.Graph JjModel.Annotate JjModel.Drv
 
@@ -30,6 +31,8 @@ def handle : List String → Option String
     let texts ← parseNatListList texts
     let diffs ← parseNatListList diffs >>= parseDiffs
     if !wfB G then some "err:malformed-graph" else
+    -- hypotheses of `err_origin_not_searched`: the starting commit is a commit of `G` and of `S`
+    if !(S.contains start && decide (start < G.length)) then some "err:start-not-searched" else
     let r := annotate G S start texts diffs
     let os := if r.1.isEmpty then "-" else ",".intercalate (r.1.map showOrigin)
     some s!"sound={showBool (diffsSound texts diffs)} n={r.2.length} {os}"
